@@ -199,4 +199,15 @@ CHECKS = {
         abnormal_exit_is_violation=True,
         assumptions=HARNESS_TRUST,
     ),
+    "C09": dict(
+        level="exploration",
+        rule=("library parser (first pass, iteration through its decode formatter, typed extraction) vs the harness' reference header walker, hand-written object size table and measurement decoders, on: "
+              "A1 every fragment the real master writes for generated user requests (class / all-objects / 8- and 16-bit range / limited-count reads over every table variation, five command types with 8/16-bit indices, three time-sync procedures, dead-bands, restarts, empty-response functions, automatic tasks) - READ header lists compared with what was asked; "
+              "A2 every response and unsolicited fragment the real outstation writes for generated databases (all types/variations, boundary values) and requests; P grammar-generated fragments x both zero-length-string options; plus 6 truncations / extensions / bit flips / octet substitutions of every captured fragment"),
+        runs=[dict(check="c09", timeout_s=900)],
+        required=["A1_fragments_agree", "A1_read_request_as_asked", "A2_fragments_agree", "A2_objects_agree", "A2_measurements_agree", "P_fragments_agree", "P_objects_agree", "P_objects_rejected", "A1_mutated_objects_rejected", "A2_mutated_objects_rejected", "A2_mutated_fragments_agree"],
+        thorough_scale=12.0,
+        abnormal_exit_is_violation=True,
+        assumptions=HARNESS_TRUST,
+    ),
 }
